@@ -26,10 +26,19 @@ def returned_ok(r):
     return exists(lambda n: norm_ok(n) and (r == n or r == n + "/"), n="str")
 
 
-contract('posixpath:normpath', sorts={'path': 'str', 'result': 'str'}, pure=True, assumed=True, props=PROPS,
+@uninterp(sorts=('str',), result='str')
+def norm_of(path):
+    """os.path.normpath as a mathematical function of the text"""
+    import os
+    return os.path.normpath(path)
+
+
+contract('posixpath:normpath', sorts={'path': 'str', 'result': 'str'},
+         ensures={'a-function-of-the-text': 'result == norm_of(path)'}, pure=True, assumed=True,
+         props=PROPS + ['C39'],
          note='os.path.normpath: some function of the text (C38 bounded check exercises it on real trees)')
 contract('posixpath:isabs', sorts={'s': 'str', 'result': 'bool'},
-         ensures={'posix': 'result == s.startswith("/")'}, pure=True, assumed=True, props=PROPS,
+         ensures={'posix': 'result == s.startswith("/")'}, pure=True, assumed=True, props=PROPS + ['C39'],
          note='os.path.isabs on POSIX')
 
 contract('cylc.flow.pathutil:parse_rm_dirs',
